@@ -368,7 +368,13 @@ impl Debug for FixedSchema {
 }
 
 impl FixedSchema {
-    fn serialize_to_map<S>(&self, mut map: S::SerializeMap) -> Result<S::SerializeMap, S::Error>
+    /// Write the entries of this fixed into `map`, except the custom attributes named in `written_by_caller`
+    /// (a logical type that writes an attribute itself must not get it a second time from here).
+    fn serialize_to_map<S>(
+        &self,
+        mut map: S::SerializeMap,
+        written_by_caller: &[&str],
+    ) -> Result<S::SerializeMap, S::Error>
     where
         S: Serializer,
     {
@@ -387,7 +393,9 @@ impl FixedSchema {
         }
 
         for attr in &self.attributes {
-            map.serialize_entry(attr.0, attr.1)?;
+            if !written_by_caller.contains(&attr.0.as_str()) {
+                map.serialize_entry(attr.0, attr.1)?;
+            }
         }
 
         Ok(map)
@@ -951,7 +959,7 @@ impl Serialize for Schema {
             }
             Schema::Fixed(fixed_schema) => {
                 let mut map = serializer.serialize_map(None)?;
-                map = fixed_schema.serialize_to_map::<S>(map)?;
+                map = fixed_schema.serialize_to_map::<S>(map, &[])?;
                 map.end()
             }
             Schema::Decimal(DecimalSchema {
@@ -962,7 +970,9 @@ impl Serialize for Schema {
                 let mut map = serializer.serialize_map(None)?;
                 match inner {
                     InnerDecimalSchema::Fixed(fixed_schema) => {
-                        map = fixed_schema.serialize_to_map::<S>(map)?;
+                        // The parser keeps `precision` and `scale` among the fixed's attributes;
+                        // they are written below, once.
+                        map = fixed_schema.serialize_to_map::<S>(map, &["precision", "scale"])?;
                     }
                     InnerDecimalSchema::Bytes => {
                         map.serialize_entry("type", "bytes")?;
@@ -990,7 +1000,7 @@ impl Serialize for Schema {
                         map.serialize_entry("type", "string")?;
                     }
                     UuidSchema::Fixed(fixed_schema) => {
-                        map = fixed_schema.serialize_to_map::<S>(map)?;
+                        map = fixed_schema.serialize_to_map::<S>(map, &[])?;
                     }
                 }
                 map.serialize_entry("logicalType", "uuid")?;
@@ -1053,7 +1063,7 @@ impl Serialize for Schema {
             Schema::Duration(fixed) => {
                 let map = serializer.serialize_map(None)?;
 
-                let mut map = fixed.serialize_to_map::<S>(map)?;
+                let mut map = fixed.serialize_to_map::<S>(map, &[])?;
                 map.serialize_entry("logicalType", "duration")?;
                 map.end()
             }
